@@ -27,29 +27,31 @@ var PreKinds = []string{"refuse", "reset0", "close0", "garbage", "dnsfail"}
 // UnresolvableHost is a name under the reserved .invalid TLD: the lookup fails (the sandbox has no resolver,
 // a real deployment gets NXDOMAIN), i.e. the endpoint is unreachable before any connection exists.
 const UnresolvableHost = "olla-verif-unresolvable.invalid"
+
 var PostKinds = []string{"hdr-reset", "hdr-close", "body-reset", "body-close", "shortcl", "truncchunk"}
 
 type EPSpec struct {
-	Name   string          `json:"name"`
-	Prio   int             `json:"prio"`
-	Status string          `json:"status,omitempty"` // initial repository status override ("" = healthy)
-	Open   bool            `json:"open,omitempty"`   // engine circuit breaker pre-opened by a request history
-	HalfOpen bool          `json:"half_open,omitempty"` // olla engine: breaker opened by a request history, then its timeout elapsed: the request is the half-open probe
-	PreFail int            `json:"prefail,omitempty"` // olla engine: this many earlier failures recorded by the endpoint's breaker (below its threshold)
-	Beh    stack.Behaviour `json:"beh"`
+	Name     string          `json:"name"`
+	Prio     int             `json:"prio"`
+	Status   string          `json:"status,omitempty"`    // initial repository status override ("" = healthy)
+	Open     bool            `json:"open,omitempty"`      // engine circuit breaker pre-opened by a request history
+	HalfOpen bool            `json:"half_open,omitempty"` // olla engine: breaker opened by a request history, then its timeout elapsed: the request is the half-open probe
+	PreFail  int             `json:"prefail,omitempty"`   // olla engine: this many earlier failures recorded by the endpoint's breaker (below its threshold)
+	Beh      stack.Behaviour `json:"beh"`
 }
 
 type Scenario struct {
-	Engine   string   `json:"engine"`
-	Balancer string   `json:"balancer"`
-	Profile  string   `json:"profile"`
-	EPs      []EPSpec `json:"eps"`
-	Method   string   `json:"method"`
-	Path     string   `json:"path"`
-	ReqBody  string   `json:"req_body"`
-	Clients  int      `json:"clients,omitempty"` // concurrent identical clients (default 1)
-	Followup bool     `json:"followup,omitempty"` // after the request: every backend works again, one more request is sent
-	ReadTimeoutMs int `json:"read_timeout_ms,omitempty"` // proxy.read_timeout for this stack (default: product default)
+	Engine           string   `json:"engine"`
+	Balancer         string   `json:"balancer"`
+	Profile          string   `json:"profile"`
+	EPs              []EPSpec `json:"eps"`
+	Method           string   `json:"method"`
+	Path             string   `json:"path"`
+	ReqBody          string   `json:"req_body"`
+	Clients          int      `json:"clients,omitempty"`            // concurrent identical clients (default 1)
+	Followup         bool     `json:"followup,omitempty"`           // after the request: every backend works again, one more request is sent
+	ReadTimeoutMs    int      `json:"read_timeout_ms,omitempty"`    // proxy.read_timeout for this stack (default: product default)
+	StreamBufferSize int      `json:"stream_buffer_size,omitempty"` // proxy.stream_buffer_size (default: product default, 8 KiB; 16-64 KiB is what the documentation recommends for the olla engine)
 }
 
 type ClientObs struct {
@@ -65,19 +67,19 @@ type ClientObs struct {
 }
 
 type Obs struct {
-	Clients  []ClientObs       `json:"clients"`
-	Order    []string          `json:"order"`    // backends contacted, in arrival order
-	Attempts map[string]int    `json:"attempts"` // per backend
-	Wrote    map[string]int    `json:"wrote"`    // response body bytes put on the wire per backend
-	Statuses map[string]string `json:"statuses"` // repository status after the request
-	Conns    map[string]int64  `json:"conns"`    // collector gauges at quiescence
-	Global   [3]int64          `json:"global"`   // collector total, ok, failed
-	Engine   [3]int64          `json:"engine"`   // engine-level total, ok, failed
-	PerEP    map[string][3]int64 `json:"per_ep"` // collector per endpoint total, ok, failed
-	SameReq  bool              `json:"same_req"` // every backend saw the same method/path/query/body
-	StartErr string            `json:"start_err,omitempty"`
-	FollowOrder  []string      `json:"follow_order,omitempty"`  // backends contacted by the follow-up request
-	FollowStatus int           `json:"follow_status,omitempty"` // client status of the follow-up request
+	Clients      []ClientObs         `json:"clients"`
+	Order        []string            `json:"order"`    // backends contacted, in arrival order
+	Attempts     map[string]int      `json:"attempts"` // per backend
+	Wrote        map[string]int      `json:"wrote"`    // response body bytes put on the wire per backend
+	Statuses     map[string]string   `json:"statuses"` // repository status after the request
+	Conns        map[string]int64    `json:"conns"`    // collector gauges at quiescence
+	Global       [3]int64            `json:"global"`   // collector total, ok, failed
+	Engine       [3]int64            `json:"engine"`   // engine-level total, ok, failed
+	PerEP        map[string][3]int64 `json:"per_ep"`   // collector per endpoint total, ok, failed
+	SameReq      bool                `json:"same_req"` // every backend saw the same method/path/query/body
+	StartErr     string              `json:"start_err,omitempty"`
+	FollowOrder  []string            `json:"follow_order,omitempty"`  // backends contacted by the follow-up request
+	FollowStatus int                 `json:"follow_status,omitempty"` // client status of the follow-up request
 }
 
 func hexOrSha(b []byte) string {
@@ -161,6 +163,9 @@ func Run(sc *Scenario) *Obs {
 	s, err := stack.Start(stack.Opts{Engine: sc.Engine, Balancer: sc.Balancer, Profile: sc.Profile, EPs: eps, Mutate: func(c *config.Config) {
 		if sc.ReadTimeoutMs > 0 {
 			c.Proxy.ReadTimeout = time.Duration(sc.ReadTimeoutMs) * time.Millisecond
+		}
+		if sc.StreamBufferSize > 0 {
+			c.Proxy.StreamBufferSize = sc.StreamBufferSize
 		}
 	}})
 	if err != nil {
